@@ -474,7 +474,7 @@ pub fn models(tier: Tier, seed: u64) -> Vec<Box<dyn DynModel>> {
 }
 
 pub fn describe(tier: Tier, r: &mut Report) {
-    r.rule = "initial states = valid encoding of every registered type x decoder in {TryFrom<&[u8]>, serde_bare, serde_json, be/le} (must decode); one action replaces one point (located by searching the encoding for the component's bytes / hex, so layout changes cannot desynchronise the harness) by a bad encoding: on-curve points outside the subgroup enumerated from small x with both signs, x without a curve point, cleared compression bit, infinity bit with non-zero x, infinity with sort bit, x >= p; or one scalar by 0 / r / r+1 / 2r / all ones; or truncates to every length; or extends by one byte; or breaks the JSON hex string (short / long / odd / non-hex). Oracle: Err, or every point of the returned value validated by the reference (on curve, torsion free); share containers with a bad payload must fail in every operation that uses them".into();
+    r.rule = "initial states = valid encoding of every registered type x decoder in {TryFrom<&[u8]>, serde_bare, serde_json, be/le} (must decode); one action replaces one point (located by searching the encoding for the component's bytes / hex, so layout changes cannot desynchronise the harness) by a bad encoding: on-curve points outside the subgroup enumerated from small x with both signs, x without a curve point, cleared compression bit, infinity bit with non-zero x, infinity with sort bit, x >= p; or one scalar by 0 / r / r+1 / 2r / all ones; or truncates to every length; or extends by one byte; or breaks the JSON hex string (short / long / odd / non-hex). Oracle: Err, or every point of the returned value validated by the reference (on curve, torsion free); share containers with a bad payload must fail in every operation that uses them; every use of a container with a bad payload is attempted twice and the second attempt must fail as well".into();
     r.deviation_bound_completed = "1".into();
     r.alphabet.insert("small_x_limit".into(), serde_json::json!(if tier.thorough() { 120 } else { 40 }));
     r.assumptions = vec!["serde acceptance of a zero scalar and of scalars >= r is recorded, not judged (the property words the zero clause for byte import)".into(), "extension by one byte is judged only for exact-length types and only for the library's own byte imports (TryFrom<&[u8]>, from_be/le_bytes): serde_bare::from_slice ignores bytes after a complete value by design".into()];
